@@ -458,7 +458,7 @@ check_gauss(const json& c)
               // known finding C19-F2: the kernel has 2*(m/2)+1 elements, i.e. m+1 for even m
               if (!(m[a] % 2 == 0 && n_el == m[a] + 1 && !no_exclude()))
                 return Result::fail(vf::cat("Gaussian kernel along axis ", a + 1, " has ", n_el, " elements, max_kernel_size=", m[a]));
-              vf::stats().count("excluded C19-F2 (even max_kernel_size gives m+1 elements)");
+              vf::stats().count("excluded:C19:F2:SeparableGaussianArrayFilter even max_kernel_size gives m+1 elements (size clause relaxed)");
             }
         }
       else if (sigma[a] > 0)
